@@ -228,44 +228,52 @@ def run(ctx, ck) -> None:
     hap = table.resolve(hom, 'apply')
     assert hap is not None
     hfn = hap.node
-    placed = 0
-    for p in function_paths(hfn):
-        if p.exit != 'return':
-            continue
-        env = path_env(p)
-        t = term(p.node.value, env)
-        aol = env.get('apply_on_left')
-        if t[0] == 'binop' and t[1] == '+':
-            first_t, last_t = env.get('first'), env.get('last')
-            want_cmp = {('cmp', op, ('call', ('attr', first_t, 'out_size'), (), ()), ('call', ('attr', last_t, 'in_size'), (), ())) for op in ('le', 'lt')}
-            ck.expect('N3', aol in want_cmp, hfn, 'the scalar goes left iff out_size(first) <= in_size(last): it multiplies the smaller number of elements',
-                      f'the side of the merged scalar is decided by {show(aol)}, not by comparing out_size(first) with in_size(last)', instance='side criterion')
-            fs = path_facts(p)
-            left_side = t[2][0] == 'list' and len(t[2]) == 2 and t[2][1][0] == 'call' and t[2][1][1] == ('var', 'HomothetyOperator')
-            pol = None
-            for ev in p.events:
-                if ev[0] == 'cond' and isinstance(ev[1], ast.Name) and ev[1].id == 'apply_on_left':
-                    pol = ev[2]
-            placed += 1
-            ck.expect('N3', pol is not None and pol == left_side, hfn, f'placed on the {"left" if left_side else "right"} exactly when the criterion says so',
-                      f'the merged scalar is placed on the {"left" if left_side else "right"} when apply_on_left is {pol}', instance=f'placement {"left" if left_side else "right"}')
-            others = t[3] if left_side else t[2]
-            ck.expect('N3', others == env.get('new_operands'), hfn, 'exactly one scalar operator remains, next to the non-scalar operands in order',
-                      f'the result keeps {show(others)} besides the merged scalar', instance=f'one scalar {"left" if left_side else "right"}', nontrivial=False)
-    ck.floor('N3', placed, 2, 'scalar placement returns')
-    ops_name = hfn.args.args[1].arg
-    nunchanged = 0
-    for p in function_paths(hfn):
-        if p.exit != 'return' or term(p.node.value, path_env(p)) != ('var', ops_name):
-            continue
-        nunchanged += 1
-        fs = path_facts(p)
-        env = path_env(p)
-        count_t = env.get('homothety_number')
-        few = any(f[0] == 'truth' and f[2] is True and f[1] == ('cmp', 'lt', ('call', ('var', 'len'), (('var', ops_name),), ()), ('const', '2')) for f in fs)
-        counted = any(f[0] == 'eq' and any(isinstance(x, tuple) and x[0] == 'const' and x[1] in ('0', '1') for x in f[1]) and any(x == count_t for x in f[1]) for f in fs) and count_t is not None
-        ck.expect('N3', few or counted, hfn, 'the chain is returned unchanged only when it holds at most one scalar operator (counted over the whole chain)',
-                  'HomothetyRule returns the chain unchanged on a path where the number of scalar operators in the whole chain is not known to be 0 or 1: several scalar factors can remain', instance=f'unchanged return {nunchanged}')
+    from ..rulesem import homothety_roles
+
+    roles = homothety_roles(hfn)
+    need = ('first', 'last', 'value', 'kept', 'count', 'side', 'side_term')
+    if roles is None or any(k not in roles for k in need):
+        ck.incomplete('N3', hfn, f'HomothetyRule.apply: cannot identify the roles {[k for k in need if roles is None or k not in roles]}')
+    else:
+        first_v, last_v, kept_v, side_v, count_v = (('var', roles[k]) for k in ('first', 'last', 'kept', 'side', 'count'))
+        aol = roles['side_term']
+        osz, isz = ('call', ('attr', first_v, 'out_size'), (), ()), ('call', ('attr', last_v, 'in_size'), (), ())
+        want_cmp = {('cmp', 'le', osz, isz), ('cmp', 'lt', osz, isz), ('cmp', 'ge', isz, osz), ('cmp', 'gt', isz, osz)}
+        ck.expect('N3', aol in want_cmp, hfn, 'the scalar goes left iff out_size(first) <= in_size(last): it multiplies the smaller number of elements',
+                  f'the side of the merged scalar is decided by {show(aol)}, not by comparing out_size(first) with in_size(last)', instance='side criterion')
+        placed = 0
+        for p in function_paths(hfn):
+            if p.exit != 'return':
+                continue
+            t = term(p.node.value)
+            if t[0] == 'binop' and t[1] == '+':
+                left_side = t[2][0] == 'list' and len(t[2]) == 2 and t[2][1][0] == 'call' and t[2][1][1] == ('var', 'HomothetyOperator')
+                pol = None
+                for e, q in p.conds():
+                    if term(e) == side_v:
+                        pol = q
+                placed += 1
+                ck.expect('N3', pol is not None and pol == left_side, hfn, f'placed on the {"left" if left_side else "right"} exactly when the criterion says so',
+                          f'the merged scalar is placed on the {"left" if left_side else "right"} when the side criterion is {pol}', instance=f'placement {"left" if left_side else "right"}')
+                others = t[3] if left_side else t[2]
+                ck.expect('N3', others == kept_v, hfn, 'exactly one scalar operator remains, next to the non-scalar operands in order',
+                          f'the result keeps {show(others)} besides the merged scalar', instance=f'one scalar {"left" if left_side else "right"}', nontrivial=False)
+        ck.floor('N3', placed, 2, 'scalar placement returns')
+        ops_name = roles['ops']
+        nunchanged = 0
+        for p in function_paths(hfn):
+            if p.exit != 'return' or term(p.node.value) != ('var', ops_name):
+                continue
+            nunchanged += 1
+            from ..terms import atom_facts as _af
+
+            fs = set()
+            for e, q in p.conds():
+                fs |= _af(e, q, {})
+            few = ('lt', ('call', ('var', 'len'), (('var', ops_name),), ()), ('const', '2')) in fs or ('le', ('call', ('var', 'len'), (('var', ops_name),), ()), ('const', '1')) in fs
+            counted = any(f[0] == 'eq' and count_v in f[1] and any(x in (('const', '0'), ('const', '1')) for x in f[1]) for f in fs)
+            ck.expect('N3', few or counted, hfn, 'the chain is returned unchanged only when it holds at most one scalar operator (counted over the whole chain)',
+                      'HomothetyRule returns the chain unchanged on a path where the number of scalar operators in the whole chain is not known to be 0 or 1: several scalar factors can remain', instance=f'unchanged return {nunchanged}')
 
     # ------------------------------------------------------------------ N4
     ident = table.by_name('IdentityOperator')
